@@ -108,9 +108,15 @@ def run(tier, rep):
                     ov[f"IDF038_{i:02d}"] = m - 1
             else:
                 count = {name: (vec[0] if d == 0 else vec[1]) for name, d in dc.items() if d >= 0} or "typ"
+                # a vector only applies if every counter field can hold its value
+                fw = bundle["fields"]
+                if isinstance(count, dict) and any(name in fw and v > (1 << fw[name]["w"]) - 1 - (1 if name == "IDF035" else 0) for name, v in count.items()):
+                    continue
+                if isinstance(count, dict) and vec[0] > 5 and not count:
+                    continue
             pl, enc = gen_messages.build(ident, bundle, rnd, values="random", count=count, mask=mask, overrides=ov)
-            if pl is None:
-                continue
+            if pl is None or (isinstance(count, dict) and any(enc.ints.get(n) != v for n, v in count.items() if n in enc.ints)):
+                continue      # (did not fit in 1023 bytes with these counts)
             nbytes = (bits + 7) // 8
             if nbytes > 1023:
                 continue
